@@ -30,9 +30,20 @@ theorem before_tie (d e : Date.Date) : d.before e = Gen.date_Before d.year d.mon
   unfold Date.Date.before Gen.date_Before
   ifchain
 
-theorem equal_tie (d e : Date.Date) : d.equal e = Gen.date_Equal d.year d.month d.day e.year e.month e.day := rfl
+/-- Boolean combinations of (in)equalities: compare them as propositions -/
+macro "boolprop" : tactic =>
+  `(tactic| (rw [Bool.eq_iff_iff]
+             simp only [Bool.and_eq_true, Bool.or_eq_true, Bool.not_eq_true', beq_iff_eq, bne_iff_ne, ne_eq,
+               decide_eq_true_eq, beq_eq_false_iff_ne]
+             omega))
 
-theorem isZero_tie (d : Date.Date) : d.isZero = Gen.date_IsZero d.year d.month d.day := rfl
+theorem equal_tie (d e : Date.Date) : d.equal e = Gen.date_Equal d.year d.month d.day e.year e.month e.day := by
+  unfold Date.Date.equal Gen.date_Equal
+  first | rfl | boolprop
+
+theorem isZero_tie (d : Date.Date) : d.isZero = Gen.date_IsZero d.year d.month d.day := by
+  unfold Date.Date.isZero Gen.date_IsZero
+  first | rfl | boolprop
 
 theorem compare_tie (v w : Sem.Ver) :
     v.compare w = Gen.sem_Compare Sem.comparePre v.major v.minor v.patch v.pre w.major w.minor w.patch w.pre := by
@@ -73,7 +84,8 @@ theorem validDate_tie (y : Int) (m d : Nat) : Date.validDate y m d = Gen.date_va
   repeat' split
   all_goals (simp only [Bool.false_eq_true, decide_eq_true_eq, iff_false, iff_true]; omega)
 
-theorem isFor_tie (c : Nat) : TestKit.isForMarshal c = Gen.test_isForMarshal c ∧ TestKit.isForUnmarshal c = Gen.test_isForUnmarshal c :=
-  ⟨rfl, rfl⟩
+theorem isFor_tie (c : Nat) : TestKit.isForMarshal c = Gen.test_isForMarshal c ∧ TestKit.isForUnmarshal c = Gen.test_isForUnmarshal c := by
+  unfold TestKit.isForMarshal TestKit.isForUnmarshal Gen.test_isForMarshal Gen.test_isForUnmarshal
+  constructor <;> first | rfl | boolprop
 
 end U.CodeTies
